@@ -184,6 +184,44 @@ def _name_lits(t):
     return rec(t)
 
 
+def dispatchers():
+    """get_propagation_kernel (PyTorch) and propagate_beam (NumPy) only DISPATCH: with every builder / method replaced by a
+    marker-returning stub, each type must come back as exactly the marker of its own builder, called with the caller's arguments"""
+    class Marker:
+        def __init__(s, name, args, kw): s.name, s.args, s.kw = name, args, kw
+    def stub(name):
+        return lambda *a, **k: Marker(name, a, k)
+    notes = {}
+    ns = shim.base_namespace()
+    builders = {'Bandlimited Angular Spectrum': 'get_band_limited_angular_spectrum_kernel', 'Angular Spectrum': 'get_angular_spectrum_kernel',
+                'Transfer Function Fresnel': 'get_transfer_function_fresnel_kernel', 'Impulse Response Fresnel': 'get_impulse_response_fresnel_kernel',
+                'Incoherent Angular Spectrum': 'get_incoherent_angular_spectrum_kernel'}
+    for b in list(builders.values()) + ['get_seperable_impulse_response_fresnel_kernel']:
+        ns[b] = stub(b)
+    ns['get_seperable_impulse_response_fresnel_kernel'] = lambda *a, **k: (Marker('get_seperable_impulse_response_fresnel_kernel', a, k), None, None, None)
+    ns['logging'] = type('L', (), {'warning': staticmethod(lambda *a, **k: None)})
+    shim.load('odak/learn/wave/classical.py', ['get_propagation_kernel'], ns)
+    dx, lam, z = shim.var('dx'), shim.var('lam'), shim.var('z')
+    for typ, b in list(builders.items()) + [('Seperable Impulse Response Fresnel', 'get_seperable_impulse_response_fresnel_kernel')]:
+        r = ns['get_propagation_kernel'](nu=4, nv=6, dx=dx, wavelength=lam, distance=z, device='cpu', propagation_type=typ, scale=1, samples=[2, 2, 1, 1])
+        ok = isinstance(r, Marker) and r.name == b and r.kw.get('nu') == 4 and r.kw.get('nv') == 6 and r.kw.get('dx') is dx and r.kw.get('wavelength') is lam and r.kw.get('distance') is z
+        notes['torch:' + typ] = bool(ok)
+    nsn = shim.base_namespace()
+    methods = {'Rayleigh-Sommerfeld': 'rayleigh_sommerfeld', 'Angular Spectrum': 'angular_spectrum', 'Impulse Response Fresnel': 'impulse_response_fresnel',
+               'Bandlimited Angular Spectrum': 'band_limited_angular_spectrum', 'Bandextended Angular Spectrum': 'band_extended_angular_spectrum',
+               'Adaptive Sampling Angular Spectrum': 'adaptive_sampling_angular_spectrum', 'Transfer Function Fresnel': 'transfer_function_fresnel',
+               'Fraunhofer': 'fraunhofer', 'Fraunhofer Inverse': 'fraunhofer_inverse'}
+    for mname in methods.values():
+        nsn[mname] = stub(mname)
+    shim.load('odak/wave/classical.py', ['propagate_beam'], nsn)
+    k = shim.var('k'); fld = object()
+    for typ, mname in methods.items():
+        r = nsn['propagate_beam'](fld, k, z, dx, lam, typ)
+        ok = isinstance(r, Marker) and r.name == mname and len(r.args) == 5 and r.args[0] is fld and r.args[1] is k and r.args[2] is z and r.args[3] is dx and r.args[4] is lam
+        notes['numpy:' + typ] = bool(ok)
+    return notes
+
+
 UP_SCALE, UP_SHAPE = 2, (2, 3)
 
 
